@@ -152,6 +152,43 @@ let block_ops : breader rops = {
   adv_pad = b_advance_and_set_padding; preceding = b_preceding; skip_blank = bSkipBlankLines; skip_spaces = bSkipSpaces;
   read_rune = bReadRune; find_closure = bFindClosure; value = b_value; position = b_position }
 
+(* ---------- C20: priority scenarios ---------- *)
+let parse_comps (d : string) : comp list =
+  List.map (fun e ->
+    match String.split_on_char ':' e with
+    | [id; prio; trig; kinds; acc] ->
+      { c_id = n_of_int (int_of_string id); c_prio = z_of_string prio;
+        c_trig = (if trig = "-" then None else if trig = "e" then Some [] else Some (bytes_of_hex trig));
+        c_kinds = List.map (fun k -> n_of_int (1 + int_of_string k)) (split_on '.' kinds)
+                  |> List.concat_map (fun k -> if int_of_n k = 3 then [n_of_int 3; n_of_int 4; n_of_int 5] else [k]);
+        c_accept = (acc = "1") }
+    | _ -> failwith "comp") (split_on ';' d)
+
+let prio_case (role : string) (d : string) : string =
+  let l = parse_comps d in
+  let ids xs = String.concat "," (List.map (fun x -> string_of_int (int_of_n x)) xs) in
+  let probes_only xs = List.filter (fun x -> int_of_n x < 100) xs in
+  match role with
+  | "a" -> let (log, _) = consult (block_candidates l (n_of_int 64)) in ids (probes_only log)
+  | "b" -> let (log, w) = consult (inline_table l (n_of_int 64)) in
+           ids log ^ (match w with Some p -> Printf.sprintf "|<p>x{%d}y</p>" (int_of_n p) | None -> "|<p>x@y</p>")
+  | "c" -> ids (probes_only (transformer_order l))
+  | "d" -> ids (transformer_order l)
+  | "e" ->
+    let t = renderer_table l in
+    let ev1 = render_ktree t (KNode (n_of_int 1, [])) in
+    let ev2 = render_ktree t (KNode (n_of_int 2, [KNode (n_of_int 4, [KNode (n_of_int 5, [])])])) in
+    let b = Buffer.create 32 in
+    let seen_t = ref false in
+    List.iter (fun (f, e) -> let f = int_of_n f in
+      if f = 1000 then (if e then Buffer.add_string b "[H]")
+      else Buffer.add_string b (Printf.sprintf "[%d%s]" f (if e then "+" else "-"))) ev1;
+    List.iter (fun (f, e) -> let f = int_of_n f in
+      if f = 1000 then (if not !seen_t then (seen_t := true; Buffer.add_string b "[T]"))
+      else Buffer.add_string b (Printf.sprintf "[%d%s]" f (if e then "+" else "-"))) ev2;
+    Buffer.contents b
+  | _ -> failwith "role"
+
 let eval (fn : string) (args : string list) : string =
   match fn, args with
   | "AstProg", [n; prog] -> let (_, _, o) = run_ast_prog (int_of_string n) prog in o
@@ -168,6 +205,7 @@ let eval (fn : string) (args : string list) : string =
        if a <> b then "SPEC-DIFF(" ^ a ^ " vs " ^ b ^ ")" else a
      | Panic, _ | _, Panic -> "PANIC"
      | _, _ -> "FUEL")
+  | "Prio", [role; d] -> prio_case role d
   | "ReaderProg", [src; script] ->
     let b = bytes_of_hex src in
     run_reader_prog plain_ops (new_reader b) (List.length b) script
